@@ -2,6 +2,7 @@
 """mkseed.py <seed-name> <property> <src-dir> <needs> <detected_by> : file a confirmed seeded change under /verif/seeded/<seed-name>/"""
 import sys, json, os, shutil, re, glob
 name, prop, src, needs, detected = sys.argv[1:6]
+cname = sys.argv[6] if len(sys.argv) > 6 else name
 dst = f"/verif/seeded/{name}"
 os.makedirs(dst, exist_ok=True)
 for f in ("patch.diff", "demo.rs", "notes.md"):
@@ -9,7 +10,7 @@ for f in ("patch.diff", "demo.rs", "notes.md"):
 confirm = ""
 for log in glob.glob("/tmp/seedres/*.log"):
     for l in open(log):
-        if l.startswith(f"CONFIRM {name} "):
+        if l.startswith(f"CONFIRM {cname} "):
             confirm = l.strip()
 m = re.search(r"demo_with_change_rc=(\S+) demo_without_change_rc=(\S+) suite_rc=(\S+)\s+(.*)", confirm)
 meta = {
